@@ -1137,6 +1137,12 @@ def decorate_for_help(d, rnd, hostile=None):
         if t["kind"] == "cmd":
             for c in t["cmds"]:
                 c["help"] = f"HELP-{tag}-cmd-{c['names'][0]}"
+                # a command without a help text of its own is listed with the first line of its description, here a
+                # Doc of several styled fragments
+                if rnd.random() < 0.2:
+                    c["help"] = ""
+                    words = [f"CMDTEXT-{tag}-{c['names'][0]}", "listed", "with", "its", "description"]
+                    c["level"]["descr_pending"] = words
             if lvl["named"] and lvl["named"][-1]["kind"] in ("switch", "reqflag", "arg") and not lvl["named"][-1].get("hidden") \
                     and rnd.random() < 0.4:
                 t["grouped"] = f"GROUP-{tag}-cmds"
@@ -1146,6 +1152,15 @@ def decorate_for_help(d, rnd, hostile=None):
                     if m["kind"] == "pos":
                         m["help"] = f"HELP-{tag}-{m['id']}"
                         m["metavar"] = f"MV{n}{m['id'].upper()}"
+    for lvl in all_levels(d):
+        for c in lvl["tail"].get("cmds", []):
+            w = c["level"].pop("descr_pending", None)
+            if w:
+                text = " ".join(w)
+                c["level"]["descr"] = text + "\n\nsecond paragraph of the description"
+                starts = [i for i in range(1, len(text)) if text[i - 1] == " "]
+                c["level"]["descr_cuts"] = sorted(rnd.sample(starts, 2))
+                c["listed"] = list(w)
     return d
 
 
